@@ -2,4 +2,4 @@
 Require Extraction.
 Require Import ExtrOcamlBasic.
 From RtrV Require Import Ip.Ipv4Text Ip.Ipv6Text Ip.Grammar.
-Extraction "c19_model.ml" ipv4_to_str ipv6_to_str str_to_ip str_to_ip_fixed cstr ref_pton4 ref_pton6.
+Extraction "c19_model.ml" ipv4_to_str ipv4_to_str_fixed ipv6_to_str str_to_ip str_to_ip_fixed cstr ref_pton4 ref_pton6.
